@@ -170,6 +170,7 @@ func (x *c03Interp) execFor(fr *c03Frame, st *c03State, s *ast.ForStmt, label st
 				res = append(res, c03Out{st: cv.st})
 				continue
 			}
+			cv.st.event(c03Event{Kind: "iter", Node: s, Frame: fr})
 			for _, bo := range x.execBlock(fr, cv.st, s.Body.List) {
 				done, leaves := c03LoopDone(bo, label)
 				switch {
